@@ -165,9 +165,11 @@ theorem positions_autoincrement :
 
 open Ebu.Generated.Sql in
 /-- Append is exactly one INSERT and SaveOffset exactly one UPSERT (each a single atomic statement:
-a kill can only land before or after it) -/
+a kill can only land before or after it), neither makes any other database round trip, and the offset
+Append acknowledges is the rowid reported for that very INSERT (not a value read on some pooled connection) -/
 theorem append_and_save_are_single_statements :
-    appendExecs = 1 ∧ saveOffsetExecs = 1 ∧ appendSql.take 3 == ["INSERT", "INTO", "events"] ∧
+    appendExecs = 1 ∧ saveOffsetExecs = 1 ∧ appendDbCalls = 1 ∧ saveOffsetDbCalls = 1 ∧
+    appendOffsetFromInsertResult = true ∧ appendSql.take 3 == ["INSERT", "INTO", "events"] ∧
     (saveOffsetSql.take 3 == ["INSERT", "INTO", "subscription_positions"] && saveOffsetSql.contains "CONFLICT" &&
       saveOffsetSql.contains "UPDATE") = true := by decide
 
